@@ -127,7 +127,20 @@ func genCanonCase(r *rand.Rand, cfg Cfg) Case {
 		ops = buildTo(r, ops, 2, all, nil, &nroot, false)
 		ex := append([]uint64{}, extras...)
 		r.Shuffle(len(ex), func(i, j int) { ex[i], ex[j] = ex[j], ex[i] })
+		if r.Intn(2) == 0 {
+			// keys of the highest layers go first: deleting them takes levels off the tree
+			sort.Slice(ex, func(i, j int) bool { return cfg.RefLayer(ex[i]) > cfg.RefLayer(ex[j]) })
+		}
+		persistFirst := r.Intn(2) == 0
 		for _, x := range ex {
+			if persistFirst && r.Intn(3) != 0 {
+				// the deletes then meet persisted, untouched children
+				ops = append(ops, fmt.Sprintf("root 2 %d", nroot))
+				if r.Intn(2) == 0 {
+					ops = append(ops, fmt.Sprintf("load %d 2", nroot))
+				}
+				nroot++
+			}
 			ops = append(ops, opDel(2, x, 9))
 		}
 		ops = append(ops, "thresholds 2", "canonroot 2")
@@ -136,10 +149,58 @@ func genCanonCase(r *rand.Rand, cfg Cfg) Case {
 	return Case{noCache(cfg), ops}
 }
 
+// genLonelyTopCase: all keys on layer 0 plus ONE key of a much higher layer at an end of the key
+// range (so that the levels between are entry-less pass-through nodes); one route never sees
+// that key, the other inserts it, persists (so that its children are untouched persisted nodes)
+// and deletes it again.  Equal contents, so equal roots.
+func genLonelyTopCase(r *rand.Rand, cfg Cfg) Case {
+	cfg = noCache(cfg)
+	cfg.KK = "vk"
+	cfg.BF = pick(r, []uint{2, 3, 4})
+	bf := int(cfg.BF)
+	n := bf*bf + 1 + r.Intn(bf*bf*bf)
+	ids := r.Perm(4*n + 8)
+	final := map[uint64]uint64{}
+	lo, hi := uint64(1<<40), uint64(0)
+	for _, id := range ids[:n] {
+		k := uint64(id+2) << 8 // layer 0
+		final[k] = uint64(r.Intn(3))
+		if k < lo {
+			lo = k
+		}
+		if k > hi {
+			hi = k
+		}
+	}
+	layer := uint64(2 + r.Intn(3))
+	x := (hi>>8+1)<<8 | layer
+	if r.Intn(2) == 0 {
+		x = (lo>>8-1)<<8 | layer
+	}
+	nroot := 0
+	ops := []string{"new 0", "new 1"}
+	ops = buildTo(r, ops, 0, final, nil, &nroot, false)
+	with := copyMap(final)
+	with[x] = 9
+	ops = buildTo(r, ops, 1, with, nil, &nroot, false)
+	ops = append(ops, fmt.Sprintf("root 1 %d", nroot))
+	if r.Intn(2) == 0 {
+		ops = append(ops, fmt.Sprintf("load %d 1", nroot))
+	}
+	nroot++
+	ops = append(ops, opDel(1, x, 9), "stat 1", "thresholds 1", "canonroot 0", "canonroot 1", "iter 1")
+	return Case{cfg, ops}
+}
+
 // famCanon — C04.
 func famCanon(f *FamCtx) {
-	f.Report.Rule = "two or three histories ending in the same entry set (shuffled inserts; detours through extra keys, wrong values, clones, persist/reload points; delete-down from a superset), final sizes biased to bf^h-1..bf^h+1 and to 0..2; every root compared with the other routes' roots (oracle) and with the root of the Lean reference builder `Tree.canon` (names via the model's own BLAKE2b); non-trivial = reached height >= 1 and changed height"
-	f.Gen = func() Case { return genCanonCase(f.Rand, RandCfg(f.Rand)) }
+	f.Report.Rule = "two or three histories ending in the same entry set (shuffled inserts; detours through extra keys, wrong values, clones, persist/reload points; delete-down from a superset with persist points between the deletes; one case in eight: all keys on layer 0 plus one lonely key of a much higher layer at an end of the range, inserted, persisted and deleted again), final sizes biased to bf^h-1..bf^h+1 and to 0..2; every root compared with the other routes' roots (oracle) and with the root of the Lean reference builder `Tree.canon` (names via the model's own BLAKE2b); non-trivial = reached height >= 1 and changed height"
+	f.Gen = func() Case {
+		if f.Rand.Intn(8) == 0 {
+			return genLonelyTopCase(f.Rand, RandCfg(f.Rand))
+		}
+		return genCanonCase(f.Rand, RandCfg(f.Rand))
+	}
 	n := f.N(200, 8000)
 	for i := 0; i < n; i++ {
 		f.RunTreeCase(f.Gen(), exactRunner, multiLevel)
